@@ -168,7 +168,7 @@ CLAIMED = {
                 "crossing-time bracket with IVT under scipy's contract. Agreement of the count with the trajectory's crossings, v_z > 0, 'no later node', "
                 "the Lipschitz bound on z, scipy bisect and binary64 rounding are sampled against a 1 s z scan",
         "design_ref": "DESIGN.md 5/C11",
-        "note": "trusted: Coq kernel, stdlib real axioms; one known class (eccentric near-equatorial orbits, signature C11:count:eccentric-low-inclination) is "
+        "note": "trusted: Coq kernel, stdlib real axioms; one known class (eccentric orbits, errors within the apsidal-rotation bound 5 s + 1.25 (e/n) dw^2, signature C11:count:eccentric-apsidal-rotation) is "
                 "suppressed by signature with an error cap",
         "technique": "Coq proof over a hand-written Gallina model; bit-exact replay of recorded (tick, z, shift) samples for all 7 time representations via vm_compute; scan oracle",
     },
